@@ -716,12 +716,20 @@ pub fn gen_doscmint(r: &mut Rng, w: &mut Wallet, cx: &Ctx, hist: &SmtMapping<Cas
         .iter()
         .filter(|c| c.cdh.coin_data.denom == Denom::Mel && c.cdh.coin_data.value.0 > 0 && c.cdh.height.0 < cx.height && hist.get(&c.cdh.height).is_some())
         .collect();
-    if cands.is_empty() {
+    // … or, now and then, a coin made earlier in the block that is still open: there is no header at its height yet, so
+    // there is no puzzle and the mint must be refused — also when its proof answers the puzzle seeded with the tip's header
+    let fresh: Vec<&WCoin> = cx
+        .coins
+        .iter()
+        .filter(|c| c.cdh.coin_data.denom == Denom::Mel && c.cdh.coin_data.value.0 > 0 && c.cdh.height.0 == cx.height && cx.height > 0)
+        .collect();
+    let use_fresh = !fresh.is_empty() && r.chance(1, 5);
+    if cands.is_empty() && !use_fresh {
         return None;
     }
-    let first = (*r.pick(&cands)).clone();
+    let first = if use_fresh { (*r.pick(&fresh)).clone() } else { (*r.pick(&cands)).clone() };
     let inputs = vec![first.clone()];
-    let seed_hdr = hist.get(&first.cdh.height)?;
+    let seed_hdr = if use_fresh { hist.get(&BlockHeight(cx.height - 1))? } else { hist.get(&first.cdh.height)? };
     let prev = hist.get(&BlockHeight(cx.height - 1))?;
     let difficulty = r.range(1, 9) as u32;
     let tip910 = r.chance(1, 2);
@@ -766,7 +774,7 @@ pub fn gen_doscmint(r: &mut Rng, w: &mut Wallet, cx: &Ctx, hist: &SmtMapping<Cas
     }
     let data = if r.chance(1, 20) { r.bytes(9) } else { stdcode::serialize(&(claimed, proof_bytes)).unwrap() };
     // reward bound, to place the ERG amount around it
-    let age = cx.height - first.cdh.height.0;
+    let age = (cx.height - first.cdh.height.0).max(1);
     let speed = (if tip910 { 100u128 } else { 1 }) * 2u128.pow(difficulty) / age as u128;
     let reward = melstf::dosc_to_erg(BlockHeight(cx.height), melstf::calculate_reward(speed, prev.dosc_speed, difficulty, tip910));
     let erg = match r.below(6) {
